@@ -204,6 +204,14 @@ func (c *updater) setAuthExternal(config ConfigValueGetter, auth *hatypes.AuthEx
 	if err != nil {
 		// clean up and try again
 		used := c.haproxy.Backends().BuildUsedAuthBackends()
+		for _, host := range c.haproxy.Hosts().Items() {
+			// external authentication placed in the frontend
+			for _, path := range host.Paths {
+				if path.AuthExt != nil && path.AuthExt.AuthBackendName != "" {
+					used[path.AuthExt.AuthBackendName] = true
+				}
+			}
+		}
 		c.haproxy.Frontend().RemoveAuthBackendExcept(used)
 		authBackendName, err = c.haproxy.Frontend().AcquireAuthBackendName(backend.BackendID())
 		if err != nil {
